@@ -344,7 +344,7 @@ func c05Units(tier string) []*Unit {
 		if tier == "thorough" {
 			d = 5
 		}
-		us = append(us, c05NameContentBoundaryUnit(d, false), c05NameContentBoundaryUnit(d+1, true))
+		us = append(us, c05NameContentBoundaryUnit(d, false), c05NameContentBoundaryUnit(d+1, true), c05StatusEntriesUnit(d+1))
 	}
 	for _, sh := range shapes {
 		sh := sh
@@ -566,6 +566,62 @@ func c05NameContentBoundaryUnit(depth int, dangling bool) *Unit {
 				}
 				setTree(dir, trees[0])
 				return &c05TreeModel{}
+			}}
+		return runHist(cfg, dir, deadline)
+	}}
+}
+
+// Several status entries of different shell shapes (a negated command, an && list, a plain
+// test): the task is up to date exactly when every entry succeeds on its own; a failing entry
+// anywhere in the list makes the commands run. Histories over {toggle each flag, run}.
+type c05NoModel struct{}
+
+func (c05NoModel) Key() string   { return "" }
+func (c05NoModel) Clone() hModel { return c05NoModel{} }
+
+func c05StatusEntriesUnit(depth int) *Unit {
+	name := fmt.Sprintf("hist/status-entries-of-several-shapes/depth%d", depth)
+	tf := "version: '3'\ntasks:\n  build:\n    status:\n      - '! test -f stale.flag'\n      - 'test -f a.flag && test -f b.flag'\n      - 'test -d .'\n    cmds:\n      - 'echo run >> trace.log'\n"
+	var evs []hEvent
+	for _, f := range []string{"stale.flag", "a.flag", "b.flag"} {
+		f := f
+		evs = append(evs, hEvent{Name: "toggle-" + f, Apply: func(dir string, _ hModel, _ []string) []vlab.Violation {
+			p := filepath.Join(dir, f)
+			if _, err := os.Stat(p); err == nil {
+				os.Remove(p)
+			} else {
+				os.WriteFile(p, nil, 0o644)
+			}
+			return nil
+		}})
+	}
+	evs = append(evs, hEvent{Name: "run", Apply: func(dir string, _ hModel, hist []string) []vlab.Violation {
+		var out []vlab.Violation
+		has := func(f string) bool { _, err := os.Stat(filepath.Join(dir, f)); return err == nil }
+		want := has("stale.flag") || !has("a.flag") || !has("b.flag")
+		before, _ := os.ReadFile(filepath.Join(dir, "trace.log"))
+		_, se, rc := RunCLI(dir, nil, "", "build")
+		after, _ := os.ReadFile(filepath.Join(dir, "trace.log"))
+		ran := len(after) > len(before)
+		state := fmt.Sprintf("stale=%v a=%v b=%v", has("stale.flag"), has("a.flag"), has("b.flag"))
+		switch {
+		case rc != 0:
+			out = append(out, vlab.V("C05", "run_failed", "status_entries", fmt.Sprintf("status %d (%s) after %v", rc, firstN(se, 120), hist)))
+		case want && !ran:
+			out = append(out, vlab.V("C05", "change_not_detected", "status_entries:status_failing", fmt.Sprintf("a status entry fails (%s) but the task was reported up to date (history %v)", state, hist)))
+		case !want && ran:
+			out = append(out, vlab.V("C05", "not_idempotent", "status_entries", fmt.Sprintf("every status entry succeeds (%s) but the commands ran (history %v)", state, hist)))
+		}
+		return out
+	}})
+	return &Unit{Name: name, Weight: 2, Custom: func(u *Unit, dir string, deadline time.Time) *vlab.UnitResult {
+		cfg := hConfig{Name: name, Depth: depth, Events: evs,
+			Ignore: func(p string) bool { return p == "trace.log" },
+			Init: func(dir string) hModel {
+				os.WriteFile(filepath.Join(dir, "Taskfile.yml"), []byte(tf), 0o644)
+				os.WriteFile(filepath.Join(dir, "a.flag"), nil, 0o644)
+				os.WriteFile(filepath.Join(dir, "b.flag"), nil, 0o644)
+				return c05NoModel{}
 			}}
 		return runHist(cfg, dir, deadline)
 	}}
